@@ -919,6 +919,7 @@ CONSTANTS Source = "enum"
 {MODEL_CONSTANTS}{"CONSTRAINT EmitTerminal" if emit else ""}
 INVARIANT AlwaysResultOrKF
 INVARIANT Terminates
+INVARIANT LinkerRestored
 INVARIANT FallbackCompleteOrKF
 INVARIANT ReportedWhenFailed
 INVARIANT ReportedWhenRenderFails
@@ -938,6 +939,7 @@ CONSTANTS Source = "file"
 POSTCONDITION Post
 INVARIANT AlwaysResultOrKF
 INVARIANT Terminates
+INVARIANT LinkerRestored
 INVARIANT FallbackCompleteOrKF
 INVARIANT ReportedWhenFailed
 INVARIANT ReportedWhenRenderFails
